@@ -208,15 +208,29 @@ PROPS["C05"] = {
     "rule": "Every string of <=3 (thorough <=4) tokens over {a, CR, LF, NUL, ':', SP} as header name and as header value through every header-writing "
             "entry point (RequestHeader/ResponseHeader Set, Add, SetCookie, Trailer.Set, method, URI, User-Agent, Host, Content-Type, Server, "
             "Content-Encoding, RequestContext.Header/Redirect/SetCookie/SetContentType, appendHeaderLine itself), plus random setter scripts of 1..6 "
-            "calls with hostile strings; the real Header() bytes are compared with the model computed from a dump of the object's state.",
+            "calls with hostile strings; the real Header() bytes are compared with the model computed from a dump of the object's state. "
+            "X05: PROGRAMS of 1..8 public API calls (24 request-header calls, 27 response-header / RequestContext calls incl. SetCanonical, Del, "
+            "SetArgBytes/AddArgBytes, SetCookie/DelCookie with all ten cookie attributes, Trailer().Set/Add, SetContentLength, DisableNormalizing) over the "
+            "alphabet {a, CR, LF, NUL, ':', SP, HTAB, '=', ';', ','} and names colliding with the special headers in odd case, run on the real objects: "
+            "the state after EVERY call and the final Header() / req.Write / resp.Write bytes are compared with the Lean model of the setters; every "
+            "string of <=2 (thorough <=3) alphabet tokens through every entry point, as name and as value, and as method / request URI / query string / "
+            "path / host of a Request written by req.Write.",
     "exhaustive_note": "all hostile strings up to the stated length are enumerated for every entry point",
     "level_text": "For ALL states of the header objects (every field an arbitrary byte string) the Lean model of the three serialisers is proved to read back, "
                   "under a strict line reader, as one start line plus exactly the kept fields, names valid, CR/LF neutralised (table facts over the regenerated "
                   "tables). The emission skeleton of the Go serialisers is regenerated on every run and proved to write raw bytes only for the start line and "
-                  "the closing CRLF. Model bytes are compared with the real Header() output on every explored state.",
-    "level_note": "Trusted: Lean kernel, translator (tables, emission skeleton), harness state dump hook (read-only). The request start line (method, URI) is outside "
-                  "the property's list and appears as a hypothesis; the Date header value is Go's.",
-    "assumptions": ["method and request URI are free of CR/LF (not header APIs)"],
+                  "the closing CRLF. Model bytes are compared with the real Header() output on every explored state. "
+                  "X05: the public setters are modelled statement by statement (special-name dispatch, key normalisation, cookie and trailer parsing); for EVERY "
+                  "program of calls with arbitrary byte arguments: the head is one start line plus the fields of expectedFields(program) (api_program_head_lines), "
+                  "every field name is a fixed special name or a key some call passed (fields_only_from_calls), at most #calls + 7 fields, method and request URI "
+                  "come only from SetMethod/SetRequestURI, and the request line has exactly two SP and no CR/LF IF AND ONLY IF those arguments have no SP/CR/LF "
+                  "(request_line_single_exactly; _fails_at witnesses: known finding start-line-raw); AppendQuotedPath and the query-argument serialiser never "
+                  "write SP/CR/LF, the raw query string and PathOriginal do (request_target_partial); the Set-Cookie line is one line for every cookie.",
+    "level_note": "Trusted: Lean kernel, translator (tables, emission skeleton), harness state dump hook (read-only). The request line is written raw by hertz "
+                  "(known finding start-line-raw, patches/C05-start-line.diff); the response status line and the Date value are Go's (hypothesis NoCRLF). "
+                  "In op apitarget the flag parsedQueryArgs (no accessor) is derived by the harness from the script (QueryArgs() was the last of "
+                  "{SetRequestURI, SetQueryString, QueryArgs()}).",
+    "assumptions": ["the response status line (consts.StatusLine) is free of CR/LF"],
 }
 
 PROPS["C04"] = {
